@@ -226,4 +226,17 @@ func init() {
 	reg(Check{Property: "C18", Assumptions: append([]string{"schedules are not enumerated: if no call writes a location another call can reach (package-level variables, the shared codec object, a shared already-valid parameters object) every interleaving equals the sequential execution; the check decides the absence of such writes on the explored paths and adds a static SSA scan for stores to package-level variables outside init"}, wrapNote...), Harnesses: []Harness{
 		{Pkg: "internal/zzc10", Fn: "VerifC10Wrapper", Label: "write-set", Desc: wrapDesc, Bounds: wrapBounds, Params: [2]map[string]int64{P("frames", 2), P("frames", 3)}, MaxSteps: 900_000_000},
 	}})
+
+	reg(Check{Property: "C11",
+		Assumptions: []string{"STRUCTURE ONLY: the numeric per-sample bound of C11 (DCT/IDCT accuracy, colour rounding) is NOT decided - probed and out of reach (DESIGN.md section 4 C11); decided here is that the tables in the stream are the tables that quantised, in the order the decoder reads them, and that partial blocks are edge-replicated"},
+		Harnesses: []Harness{
+			{Pkg: "jpeg/baseline", Fn: "VerifC11Tables", Desc: "every quality 1..100: scaled tables in 1..255; writeDQT bytes == tables in zig-zag order; parseDQT recovers them; ZigZag permutation/Unzig inverse (concrete enumeration over quality)", Bounds: [2]string{"quality 1..100, 1 and 3 components", "same"}, Enumerative: true},
+			{Pkg: "jpeg/baseline", Fn: "VerifC11ParseDQT", Desc: "parseDQT on 64 symbolic entries, 8- and 16-bit precision, destinations 0..3: entry k lands at natural position ZigZag[k]", Bounds: [2]string{"all entry values", "same"}},
+			{Pkg: "jpeg/baseline", Fn: "VerifC11Padding", Desc: "rgbToYCbCr pads a partial block by replicating the edge pixel (symbolic pixel)", Bounds: [2]string{"1x1 image", "same"}},
+		}})
+	reg(Check{Property: "C15",
+		Assumptions: []string{"image/jpeg.Decode is replaced (engine only) by its documented contract: an *image.Gray / *image.YCbCr (4:4:4) over Rect(0,0,w,h) with arbitrary Stride >= width and symbolic planes; natively the real image/jpeg decodes the library encoder's stream", "NOT covered: numeric agreement with image/jpeg within 2 (6) levels, the baseline decoder's block addressing for sub-sampled streams, restart intervals"},
+		Harnesses: []Harness{
+			{Pkg: "jpeg/extended", Fn: "VerifC15DecodeSimple", Desc: "DecodeSimple repacking: result has width x height x components tightly packed samples and sample (x,y) is the image's sample at (x,y) for every stride padding 0..2", Bounds: [2]string{"w <= 3, h <= 2, grey and colour", "w <= 9"}, Params: [2]map[string]int64{P("maxW", 3), P("maxW", 9)}},
+		}})
 }
